@@ -297,9 +297,16 @@ fn corruptions(ctx: &Ctx, acc: &mut Acc, lines: &[Vec<&str>], which: usize, seps
             variants.push((format!("# inserted before token {i}"), v));
         }
     }
+    // lines that carry no transaction, placed before the first line (the reported line number must still be the
+    // line's position in the text as given)
+    const PROLOGUES: [&str; 6] = ["", "\n", "\n\n", "   \n", "# c\n", "\t\n# c\n"];
     for sep in seps {
+      for prologue in PROLOGUES {
         for (what, v) in &variants {
-            let mut text = String::new();
+            let mut text = prologue.replace('\n', sep);
+            if !prologue.is_empty() {
+                acc.bump("corruption:after-leading-blank-or-comment-lines");
+            }
             for (li, l) in lines.iter().enumerate() {
                 if li == which {
                     text.push_str(&v.join(" "));
@@ -313,7 +320,7 @@ fn corruptions(ctx: &Ctx, acc: &mut Acc, lines: &[Vec<&str>], which: usize, seps
             acc.bump("corruptions");
             let exp = refparse::parse(&text);
             let got = tool_parse(&text);
-            let cx = json!({"corruption": what, "line": which + 1, "separator": sep, "profile": label, "variant": if *sep == "\r" { "CR-only separators" } else { "corruption" }});
+            let cx = json!({"corruption": what, "line": which + 1, "separator": sep, "prologue": prologue, "profile": label, "variant": if *sep == "\r" { "CR-only separators" } else { "corruption" }});
             match (&exp, &got) {
                 (Ok(e), Ok(g)) => {
                     acc.bump("corruption:still-valid");
@@ -338,6 +345,7 @@ fn corruptions(ctx: &Ctx, acc: &mut Acc, lines: &[Vec<&str>], which: usize, seps
                 }
             }
         }
+      }
     }
 }
 
@@ -412,7 +420,7 @@ pub fn c13(tier: Tier) -> i32 {
         ctx.require(acc.get(k) > 0, &format!("no text exhibited {k}"));
     }
     ctx.bound = json!({"one_line_bases": bases.len(), "max_deviations_one_line": k1, "three_line_files": tri.len(), "max_deviations_three_line": k3});
-    ctx.alphabets.push(json!({"name": "lexical deviations", "bases": bases, "deviation_menu": "gap in {two spaces, tab, space-tab-space} at every token gap; lower/mixed case of every keyword, currency code and ticker; line end in {spaces, tab, ' # c', '#c', ' # BUY X 1 @ 1', ' #'}; separator after each line in {LF, CRLF, CR}; final newline absent; blank / whitespace-only / comment line inserted at every line boundary", "corruptions": "delete / duplicate / swap-with-neighbour / replace by {?, 1.2.3, -5, abc, 2024-13-01, 2024-02-30, BUYY, ZZZ} / '#' inserted before, for every token, with LF, CRLF and CR separators"}));
+    ctx.alphabets.push(json!({"name": "lexical deviations", "bases": bases, "deviation_menu": "gap in {two spaces, tab, space-tab-space} at every token gap; lower/mixed case of every keyword, currency code and ticker; line end in {spaces, tab, ' # c', '#c', ' # BUY X 1 @ 1', ' #'}; separator after each line in {LF, CRLF, CR}; final newline absent; blank / whitespace-only / comment line inserted at every line boundary", "corruptions": "delete / duplicate / swap-with-neighbour / replace by {?, 1.2.3, -5, abc, 2024-13-01, 2024-02-30, BUYY, ZZZ} / '#' inserted before, for every token, with LF, CRLF and CR separators, after each of 6 prologues (nothing, one or two blank lines, a whitespace-only line, a comment line, both)"}));
     ctx.explanation = "States are DSL texts. From each canonical text every set of at most k deviations at distinct sites is applied (deviation-bounded exhaustive search, like a preemption bound) and the real parse_file must return exactly the canonical transaction list (computed by an independent whitespace-tokenising recogniser of the README grammar: omitted currency = GBP, omitted FEES/TAX = 0). Every single-token corruption of every token is classified by the recogniser: valid ones must parse to the recogniser's value, invalid ones must be rejected with an error reporting the corrupted line, never fewer transactions than lines.".into();
     ctx.assumptions = vec!["leading indentation, form feeds and non-breaking spaces are outside the statement".into()];
     ctx.finish(&acc, "model_checking")
